@@ -1,13 +1,14 @@
 (* C03 — storage is released exactly once, after the last handle, in any drop order.
-   Pinned statements (PARTIAL).  Proved over M2: the reference-count primitives never panic and never allocate; release of a
-   storage whose count is 1 frees buffer and control block (and drops the owner, exactly once: a second drop is UB in the
-   model); dropping a handle is never a panic.  The global statement (count = number of live holders in every reachable state,
-   no orphan storage, drop-all in any order frees everything once) needs the invariant WF and is not proved yet; it is decided
-   on every generated history by the ledger (kind c03-leak, c03-owner-x, c03-freed-while-in-use) with the survivors dropped in
-   a seeded random order, and on M2 by replay (kind model-leak). *)
+   Pinned statements.  Proved over M2: the reference-count primitives never panic and never allocate; dropping a handle is never
+   a panic; from the global invariant WF (C02): in every reachable state a live count is the number of holders, a freed storage
+   is referenced by no handle, and with no handle left every heap buffer and every owner's memory has been released; and the
+   OWNER PROTOCOL of from_owner (OwnerInv.v, a second invariant over owners and storages): for every owner memory there is exactly
+   one owner, its as_ref ran exactly once, it was dropped at most once, and it is alive exactly as long as some handle holds the
+   memory.  The same is decided on every generated history by the ledger (kind c03-leak, c03-owner-x, c03-freed-while-in-use)
+   with the survivors dropped in a seeded random order, and on M2 by replay (kind model-leak). *)
 From stdpp Require Import gmap.
 From Coq Require Import NArith.
-From BV Require Import Base Heap HeapLaws HeapPanic HeapWF HeapWFOps HeapWFMain.
+From BV Require Import Base Heap HeapLaws HeapPanic HeapWF HeapWFOps HeapWFMain OwnerInv.
 
 Theorem C03_release_never_panics_partial : forall k, np (release k).
 Proof. exact np_release. Qed.
@@ -41,6 +42,10 @@ Theorem C03_count_is_number_of_handles : forall orcs n s k st cap rc, reach orcs
   rc = N.of_nat (refs (hs s) k).
 Proof. intros orcs n s k st cap rc Hr. apply wf_count_is_holders. by eapply reach_wf. Qed.
 
+Theorem C03_owner_protocol : forall orcs n s k st, reach orcs n s -> sts s !! k = Some st -> s_cls st = SOwnerMem ->
+  exists o w, owners s !! o = Some w /\ o_mem w = k /\ (forall o' w', owners s !! o' = Some w' -> o_mem w' = k -> o' = o) /\
+    o_asref w = 1%N /\ o_drops w = (if o_dropped w then 1 else 0)%N /\ (o_dropped w = false <-> (1 <= refs (hs s) k)%nat).
+Proof. exact owner_protocol. Qed.
 Print Assumptions C03_release_never_panics_partial.
 Print Assumptions C03_drop_never_panics_partial.
 Print Assumptions C03_drops_never_allocate_partial.
@@ -48,3 +53,4 @@ Print Assumptions C03_owner_history.
 Print Assumptions C03_released_after_last_handle.
 Print Assumptions C03_freed_storage_unreferenced.
 Print Assumptions C03_count_is_number_of_handles.
+Print Assumptions C03_owner_protocol.
